@@ -103,7 +103,7 @@ def run(ck, rng):
     n = 900 if ck.tier == "quick" else 25000
     scs = scenarios(rng, n)
     cases = [s[0] for s in scs]
-    impl, crashes = run_impl(exe, cases, per_case_timeout=15.0)
+    impl, crashes = run_impl(exe, cases, per_case_timeout=40.0)
     for (case, entry, cancel, rfail, nbad, nroots, dl), res in zip(scs, impl):
         ck.case(case[:300], nbad > 0 or cancel != "-" or nroots >= 3)
         ck.count("entry:" + entry)
@@ -128,7 +128,7 @@ def run(ck, rng):
                                                           snap_arg([(b"tgt", "d")]), hx(b"tgt"), hx(doc))
         rs.append((case, entry, "-", "-", 1, nroots, len(doc)))
     env = dict(os.environ, GORACE="halt_on_error=1 exitcode=66")
-    rimpl, rcrashes = run_impl(rexe, [s[0] for s in rs], per_case_timeout=30.0, env=env)
+    rimpl, rcrashes = run_impl(rexe, [s[0] for s in rs], per_case_timeout=60.0, env=env)
     for (case, entry, cancel, rfail, nbad, nroots, dl), res in zip(rs, rimpl):
         ck.case("race " + case[:300], True)
         ck.count("race_build_cases")
